@@ -321,6 +321,7 @@ static vector<Op> MainAlphabet(bool thorough, bool with_long) {
   sess({{0, 6, {1, 2}}}, "session(o1@6<de,dep>)");
   sess({{0, 6, {1, 3}}}, "session(o1@6<de,deps>)");
   sess({{0, 5, {}}}, "session(o1@5<>)");
+  sess({{0, 6, {2, 2}}}, "session(o1@6<dep,dep>)");   // one file named twice in a list (two spellings of a header in a depfile)
   sess({{1, 0x100000007LL, {3, 0}}}, "session(o2x@2^32+7<deps,d>)");
   sess({{1, 5, {2}}}, "session(o2x@5<dep>)");
   sess({{0, 7, {3}}, {1, 7, {0}}}, "session(o1@7<deps> ; o2x@7<d>)");
